@@ -138,6 +138,29 @@ func (f *flakyWriter) Write(b []byte) (int, error) {
 	return len(b), nil
 }
 
+// lateWriter accepts every byte of every Write; the Write during which the total reaches k bytes
+// still takes all of its bytes (n == len(p)) but returns the error with them — a buffered or
+// asynchronous sink that learns of the failure while the bytes are already handed over. Later
+// Writes fail outright.
+type lateWriter struct {
+	k     int
+	err   error
+	buf   []byte
+	fired bool
+}
+
+func (f *lateWriter) Write(b []byte) (int, error) {
+	if f.fired {
+		return 0, f.err
+	}
+	f.buf = append(f.buf, b...)
+	if len(f.buf) >= f.k {
+		f.fired = true
+		return len(b), f.err
+	}
+	return len(b), nil
+}
+
 // event is one Read/Write call on which the environment deviated from "everything, no error".
 type event struct {
 	site string // first go-mc function above the call
